@@ -1068,7 +1068,11 @@ int ov_halfrate(OggVorbis_File *vf,int flag){
 
   /* restore the position only now: the seek rebuilds the decode
      machine, which has to see the new setting */
-  if(pos>=0) ov_pcm_seek(vf,pos);
+  if(pos>=0){
+    /* at half rate the position runs one past an odd total at the end */
+    if(vf->seekable && pos>ov_pcm_total(vf,-1)) pos=ov_pcm_total(vf,-1);
+    ov_pcm_seek(vf,pos);
+  }
   return ret;
 }
 
